@@ -1,163 +1,8 @@
 // C11 — every well-formed MTBL file is readable, not only the ones today's writer emits
 // Files are produced by the independent encoder (harness/refcodec.h) with generated encoding choices.
 #define VF_MAIN
-#include "readcommon.h"
-#include "../harness/refcodec.h"
+#include "c11_common.h"
 #include <dirent.h>
-using namespace vf;
-
-struct BlockChoice {
-  int n = 1;            // entries in this block
-  int restart_mode = 0; // 0 every entry, 1 only entry 0, 2 every k (k = restart_k), 3 irregular (bitmask restart_bits)
-  int restart_k = 2;
-  uint32_t restart_bits = 0;
-  int share_mode = 0;   // 0 maximal (LCP), 1 none, 2 pseudo-random amount <= LCP (seeded by share_seed)
-  uint32_t share_seed = 0;
-  int sep_mode = 0;     // 0 last key, 1 last key + 0xff.., 2 just below the next block's first key, 3 shortest separator, 4 last + one symbol
-};
-struct Case {
-  int version = 2, algo = 0, level = 0;
-  int prefix_len = 0;
-  int index_restart = 16;
-  std::vector<SEntry> entries;
-  std::vector<BlockChoice> blocks;  // partition: consumed in order; leftovers go to a final block
-  std::vector<IterSpec> iters;
-  std::vector<Op> ops;
-  uint32_t qseed = 1;
-  bool valid() const {
-    if (version < 1 || version > 2 || algo < 0 || algo > 5 || prefix_len < 0 || prefix_len > 100000 || index_restart < 1) return false;
-    for (auto &b : blocks)
-      if (b.n < 1 || b.restart_k < 1) return false;
-    if (iters.size() > 4) return false;
-    for (auto &o : ops)
-      if (o.it < 0 || o.it >= (int)std::max<size_t>(1, iters.size())) return false;
-    KVs kv = expand_entries(entries);
-    for (size_t i = 1; i < kv.size(); i++)
-      if (bcmp3(kv[i - 1].first, kv[i].first) >= 0) return false;
-    return true;
-  }
-  std::string ser() const {
-    Out o;
-    o << "property C11\n";
-    o << "format version=" << version << " algo=" << algo << " level=" << level << " prefix_len=" << prefix_len << " index_restart=" << index_restart
-      << " qseed=" << qseed << "\n";
-    for (auto &b : blocks)
-      o << "block n=" << b.n << " restart_mode=" << b.restart_mode << " restart_k=" << b.restart_k << " restart_bits=" << b.restart_bits
-        << " share_mode=" << b.share_mode << " share_seed=" << b.share_seed << " sep_mode=" << b.sep_mode << "\n";
-    for (size_t i = 0; i < iters.size(); i++) o << "iter " << i << " " << iters[i].ser() << "\n";
-    ser_entries(o, entries);
-    for (auto &op : ops) o << op.ser() << "\n";
-    return o.str();
-  }
-  static Case parse(const std::string &t) {
-    Case c;
-    for (auto &row : Lines::parse(t).rows) {
-      auto kvs = [&](std::function<void(const std::string &, long long)> f) {
-        for (size_t i = 1; i < row.size(); i++) {
-          size_t e = row[i].find('=');
-          if (e != std::string::npos) f(row[i].substr(0, e), atoll(row[i].c_str() + e + 1));
-        }
-      };
-      if (row[0] == "format")
-        kvs([&](const std::string &k, long long v) {
-          if (k == "version") c.version = (int)v;
-          else if (k == "algo") c.algo = (int)v;
-          else if (k == "level") c.level = (int)v;
-          else if (k == "prefix_len") c.prefix_len = (int)v;
-          else if (k == "index_restart") c.index_restart = (int)v;
-          else if (k == "qseed") c.qseed = (uint32_t)v;
-        });
-      else if (row[0] == "block") {
-        BlockChoice b;
-        kvs([&](const std::string &k, long long v) {
-          if (k == "n") b.n = (int)v;
-          else if (k == "restart_mode") b.restart_mode = (int)v;
-          else if (k == "restart_k") b.restart_k = (int)v;
-          else if (k == "restart_bits") b.restart_bits = (uint32_t)v;
-          else if (k == "share_mode") b.share_mode = (int)v;
-          else if (k == "share_seed") b.share_seed = (uint32_t)v;
-          else if (k == "sep_mode") b.sep_mode = (int)v;
-        });
-        c.blocks.push_back(b);
-      } else if (row[0] == "entry") c.entries.push_back(parse_entry(row));
-      else if (row[0] == "iter") c.iters.push_back(IterSpec::parse(row, 2));
-      else if (row[0] == "op") c.ops.push_back(Op::parse(row));
-    }
-    return c;
-  }
-};
-
-static bytes own_shortest_separator(const bytes &a, const bytes &limit) {
-  // any key k with a <= k < limit; prefer short: first differing byte bumped when possible
-  size_t n = std::min(a.size(), limit.size()), i = 0;
-  while (i < n && a[i] == limit[i]) i++;
-  if (i < n) {
-    unsigned char x = (unsigned char)a[i], y = (unsigned char)limit[i];
-    if (x + 1 < y) {
-      bytes s = a.substr(0, i + 1);
-      s[i] = (char)(x + 1);
-      return s;
-    }
-  }
-  return a;
-}
-
-static ref::EFile build(const Case &c, const KVs &kv) {
-  ref::EFile f;
-  f.version = c.version;
-  f.algo = c.algo;
-  f.level = c.level;
-  BStr p;
-  p.glen = (uint32_t)c.prefix_len;
-  p.gseed = 11;
-  f.prefix = p.expand();
-  f.index_restart_interval = c.index_restart;
-  size_t pos = 0, bi = 0;
-  std::vector<std::pair<size_t, size_t>> ranges;
-  while (pos < kv.size()) {
-    size_t n = bi < c.blocks.size() ? (size_t)c.blocks[bi].n : kv.size() - pos;
-    n = std::min(n, kv.size() - pos);
-    ranges.push_back({pos, n});
-    pos += n;
-    bi++;
-  }
-  for (size_t r = 0; r < ranges.size(); r++) {
-    BlockChoice ch = r < c.blocks.size() ? c.blocks[r] : BlockChoice();
-    ref::EBlock b;
-    uint32_t s = ch.share_seed | 1;
-    for (size_t j = 0; j < ranges[r].second; j++) {
-      ref::EEntry e;
-      e.key = kv[ranges[r].first + j].first;
-      e.val = kv[ranges[r].first + j].second;
-      if (ch.share_mode == 1) e.share = 0;
-      else if (ch.share_mode == 2) {
-        s = s * 1664525u + 1013904223u;
-        e.share = (int)((s >> 16) % 9);
-      }
-      b.entries.push_back(e);
-      bool restart = j == 0;
-      if (ch.restart_mode == 0) restart = true;
-      else if (ch.restart_mode == 2) restart = restart || (j % (size_t)ch.restart_k == 0);
-      else if (ch.restart_mode == 3) restart = restart || ((ch.restart_bits >> (j % 32)) & 1);
-      if (restart) b.restart_at.push_back(j);
-    }
-    const bytes &last = b.entries.back().key;
-    bool has_next = r + 1 < ranges.size();
-    bytes next_first = has_next ? kv[ranges[r + 1].first].first : bytes();
-    bytes sep = last;
-    switch (ch.sep_mode) {
-      case 1: sep = last + bytes(2, (char)0xff); break;
-      case 2: if (has_next) sep = key_pred(next_first); break;
-      case 3: if (has_next) sep = own_shortest_separator(last, next_first); break;
-      case 4: sep = last + bytes(1, 'a'); break;
-      default: break;
-    }
-    if (bcmp3(sep, last) < 0 || (has_next && bcmp3(sep, next_first) >= 0)) sep = last;  // stay inside the legal interval
-    b.separator = sep;
-    f.blocks.push_back(b);
-  }
-  return f;
-}
 
 static Case gen_case() {
   Case c;
@@ -194,76 +39,14 @@ static Case gen_case() {
   return c;
 }
 
-static Result run_case(const Case &c) {
+static Case decode_fuzz11(const uint8_t *d, size_t n);
+static Result run_case(const Case &c0) {
   return run_isolated([&](Result &r) {
-    RefTable m;
-    m.e = expand_entries(c.entries);
-    ref::EFile ef = build(c, m.e);
-    bool ok = true;
-    bytes img = ref::encode_file(ef, &ok);
-    if (!ok) {
-      r.tag("encoder_refused");  // system compressor refused: nothing to check
-      return;
-    }
-    // decoder o encoder = identity (keeps the harness honest)
-    ref::DFile df = ref::decode_file(img);
-    if (!df.err.empty() || !diff_kvs(df.all(), m.e).empty()) {
-      r.failf("HARNESS: independent decoder does not read back the independent encoder's file: %s", df.err.c_str());
-      return;
-    }
-    int fd = fd_from_bytes(img);
-    struct mtbl_reader *rd = open_reader_fd(fd, /*verify*/ c.qseed % 2 == 0, false);
-    if (!rd) {
-      r.failf("mtbl_reader_init_fd rejects a well-formed v%d file (%zu blocks, algorithm %d)", c.version, ef.blocks.size(), c.algo);
-      return;
-    }
-    const struct mtbl_source *src = mtbl_reader_source(rd);
-    struct mtbl_iter *it = mtbl_source_iter(src);
-    KVs got = it ? drain(it) : KVs();
-    if (it) mtbl_iter_destroy(&it);
-    std::string d = diff_kvs(got, m.e);
-    if (!d.empty()) r.failf("full iteration differs from the encoded entries: %s", d.c_str());
-    std::vector<bytes> seps, lasts, firsts;
-    for (auto &b : ef.blocks) {
-      seps.push_back(b.separator);
-      lasts.push_back(b.entries.back().key);
-      firsts.push_back(b.entries.front().key);
-    }
-    QueryStats qst;
-    if (!r.fail) {
-      std::vector<bytes> qs = derived_queries(m, seps, {}, c.qseed);
-      std::string e = run_queries(src, m, qs, c.qseed, qst, ValueCmp(), &seps, &lasts, &firsts);
-      if (!e.empty()) r.failf("%s", e.c_str());
-    }
-    HistStats hs;
-    if (!r.fail && !c.iters.empty()) {
-      std::string e = run_history(src, m, c.iters, c.ops, hs);
-      if (!e.empty()) r.failf("%s", e.c_str());
-    }
-    const struct mtbl_metadata *md = mtbl_reader_metadata(rd);
-    if (!r.fail && (int)mtbl_metadata_file_version(md) != c.version - 1) r.failf("mtbl_metadata_file_version = %d for a v%d file", (int)mtbl_metadata_file_version(md), c.version);
-    mtbl_reader_destroy(&rd);
-    close(fd);
-    bool nonmax = false, irregular = false, widesep = false, single = false;
-    for (size_t i = 0; i < ef.blocks.size(); i++) {
-      BlockChoice ch = i < c.blocks.size() ? c.blocks[i] : BlockChoice();
-      if (ch.share_mode) nonmax = true;
-      if (ch.restart_mode) irregular = true;
-      if (ef.blocks[i].separator != ef.blocks[i].entries.back().key) widesep = true;
-      if (ef.blocks[i].entries.size() == 1) single = true;
-    }
-    r.nontrivial = c.version == 1 || nonmax || irregular || widesep;
-    r.tag(c.version == 1 ? "format_v1" : "format_v2");
-    if (ef.blocks.size() >= 2) r.tag("multi_block");
-    if (nonmax) r.tag("non_maximal_sharing");
-    if (irregular) r.tag("restarts_not_every_entry");
-    if (widesep) r.tag("separator_not_last_key");
-    if (single) r.tag("single_entry_block");
-    for (auto &b : df.data)
-      if (b.stored_len >= 65536) r.tag("stored_block_ge64KiB");
-    if (c.prefix_len) r.tag("foreign_prefix");
-    r.tag("algo_" + std::to_string(c.algo));
-    r.counters["queries_in_index_gap"] = qst.gap_queries;
+    if (!c0.fuzz.empty()) {
+      Case c = decode_fuzz11((const uint8_t *)c0.fuzz.data(), c0.fuzz.size());
+      check_case(c, r);
+      r.tag("from_fuzzer_artifact");
+    } else check_case(c0, r);
   });
 }
 
